@@ -27,6 +27,7 @@ def run(ctx):
                 reqs.append(E.Req(gt, "serbuf", (v, mx)))
                 reqs.append(E.Req(gt, "serbuf", (v, rng.choice([max(0, mx - 1), mx + 1]))))
     E.run_requests(ctx, sess, drv, "ser", reqs, tally)
+    E.run_refinement_ties(ctx)
     ctx.sample({"type": reqs[-1].gt.tstr[:200], "request": reqs[-1].target_line()[:200]})
 
 
